@@ -17,6 +17,12 @@ def build(P):
     P.verify(T.ED + "EventDispatcher.dispatch", T.dispatch_contract(), tags=("C19",))
     P.verify(D.ET + "asl_service_rpcmessage", D.rpcmessage_contract(), tags=("C19",), timeout=30)
     P.verify(D.ET + "asl_service_states_startExecution", D.start_execution_launch_contract(), tags=("C19",), timeout=30)
+    from contracts import api as A
+    for w in ("asyncio", "blocking"):
+        c = A.start_execution_api(w)
+        P.verify(c.key, c, tags=("C19",), timeout=30, label="StartExecution[%s]" % w, obl_prefix=w + ".StartExecution")
+    c = A.start_execution_api("asyncio", sync=True)
+    P.verify(c.key, c, tags=("C19",), timeout=30, obl_prefix="asyncio.StartSyncExecution")
     P.explanation = ("Producer.send in both transports: routing key = subject, body / exchange / mandatory / headers / correlation "
                      "id / reply-to / message id passed through, expiration None or the decimal string of a non-negative integer; "
                      "EventDispatcher.publish: shared queue iff asked, instance queue otherwise, fresh message id; acknowledge: that "
